@@ -306,6 +306,12 @@ def check_td(kind, vals, freezes=False):
 
 def check_case(case):
     k = case["kind"]
+    if k == "strctx":
+        b = Beat(case["tick"], 48)
+        want = str(b)
+        with core.decimal_precision(case["prec"]):
+            got = str(b)
+        return [] if got == want else [{"clause": "str(Beat) depends on the decimal context", "expected": want, "observed": got}]
     if k == "tick":
         return check_tick(case["k"])
     if k == "snap":
@@ -369,6 +375,28 @@ def explore_shard(acc, shard):
         for y in RATIONALS:
             run_case(acc, "arith", {"kind": "pair", "x": str(x), "y": str(y)})
         acc.sample("3 arithmetic", {"kind": "pair", "x": str(x), "y": str(RATIONALS[-1])})
+    elif kind == "strctx":
+        # writing a beat does not depend on the thread's decimal context
+        bad = None
+        for k in list(range(-60, 200)) + [480001, 47999, 4800001, 10**9 + 1, -480001]:
+            b = Beat(k, 48)
+            want = str(b)
+            for prec in (2, 3, 6):
+                with core.decimal_precision(prec):
+                    got = str(b)
+                    back = Beat.from_str(got) if got == want else None
+                if got != want or back != b:
+                    bad = (k, prec, want, got)
+                    break
+            acc.count("states")
+            acc.count("transitions")
+            acc.count("evaluations", 3)
+            if bad:
+                break
+        acc.outcome("beat written under a low-precision decimal context")
+        if bad:
+            acc.violation("str(Beat) depends on the decimal context", {"kind": "strctx", "tick": bad[0], "prec": bad[1]}, bad[2], bad[3], signature=("strctx",))
+        acc.sample("1 tick grid", {"kind": "strctx"})
     elif kind == "bigpairs":
         small = [r for r in RATIONALS if r.denominator in (1, 3, 48, 1000) and abs(r.numerator) in (1, 5)]
         for x in BIG:
@@ -449,6 +477,7 @@ def explore(run):
     for i in range(nev):
         shards.append(("events", i, 3 if run.thorough() else 2, run.seed))
     shards.append(("bigpairs",))
+    shards.append(("strctx",))
     shards.append(("longvalues", run.seed))
     for n in (1, 2, 3):
         shards.append(("padding", n))
